@@ -136,6 +136,7 @@ _T_ARGS = rb"(?:" + _WS + rb"|[,/*)])*"
 _P_OPEN = rb"(?:" + _WS + rb"|\()*"
 _T_CLOSE = rb"(?:" + _WS + rb"|\))*"
 _TRIVIA = re.compile(rb"(?:[ \t\f\r\n]|#[^\r\n]*|\\\r?\n|\\\r)*\Z")
+_LEAD_TRIVIA = re.compile(rb"(?:\xef\xbb\xbf)?(?:[ \t\f\r\n]|#[^\r\n]*|\\\r?\n|\\\r)*\Z")
 
 
 def _balanced(text):
@@ -184,8 +185,10 @@ def extents(b, tree):
             text = b[a:e]
             bad = None
             if kind in ("ModModule", "ModInteractive", "ModExpression"):
-                if a != 0 or not _TRIVIA.match(b, e):
-                    bad = "module range must start at 0 and leave only trivia behind"
+                # "the construct's own text": nothing but trivia (BOM, blanks, comments, line breaks,
+                # continuations) may lie in front of the start and behind the end
+                if not _LEAD_TRIVIA.match(b[:a]) or not _TRIVIA.match(b, e):
+                    bad = "only trivia may lie in front of and behind a module's range"
             elif kind == "Arguments":
                 kids = [x for f in ("posonlyargs", "args", "vararg", "kwonlyargs", "kwarg") for x in _sub_nodes(fd[f])]
                 if not kids:
